@@ -92,6 +92,9 @@ func (fs *Fs) Open(name string) (afero.File, error) {
 	}
 
 	nf := *file
+	// each handle reads at its own offset
+	data := *file.data
+	nf.data = &data
 
 	return &nf, nil
 }
